@@ -14,6 +14,7 @@ import subprocess
 import sys
 import tempfile
 import time
+import time
 
 VERIF = os.path.dirname(os.path.dirname(os.path.abspath(__file__)))
 LEAN_DIR = os.path.join(VERIF, "lean")
@@ -82,6 +83,10 @@ def ensure_driver():
 def run_driver(mode, lines, timeout=600):
     """Feed op lines to the native Lean driver, return output lines."""
     data = "\n".join(lines) + "\n"
+    for _ in range(120):            # the binary is replaced while a concurrent `lake build` relinks it
+        if os.path.exists(DRIVER):
+            break
+        time.sleep(0.5)
     p = subprocess.run([DRIVER, mode], input=data, capture_output=True, text=True, timeout=timeout)
     if p.returncode != 0:
         raise Infra("driver failed: " + p.stderr[-2000:])
